@@ -128,6 +128,7 @@ func Gen(seed uint64, profile string) *Scenario {
 	}
 	// (after every other source of requests, so that none of them is left naming a range)
 	metaTwins(simkit.NewRNG(seed, "bw/meta-twins"), sc)
+	aliasSpelling(simkit.NewRNG(seed, "bw/alias-spelling"), sc)
 	vr := simkit.NewRNG(seed, "bw/variants")
 	for v := 0; v < nvar; v++ {
 		va := Variant{SchedSeed: vr.U64(), Shape: simkit.Pick(vr, []string{"random", "random", "rr", "rtc"}), PermSalt: 0}
@@ -978,4 +979,51 @@ func hasPath(fs []PFile, p string) bool {
 		}
 	}
 	return false
+}
+
+// aliasSpelling gives one package (one run in ten) an address with a space in
+// its last path segment and lets the references to it alternate between the
+// two spellings of that space, escaped and literal: one package, whose address
+// prints in the escaped form whichever way it was written.
+func aliasSpelling(r *simkit.RNG, sc *Scenario) {
+	if len(sc.Pkgs) == 0 || !r.Chance(1, 10) {
+		return
+	}
+	p := &sc.Pkgs[r.Intn(len(sc.Pkgs))]
+	k := strings.LastIndex(p.Base, "/")
+	if k < 0 || strings.ContainsAny(p.Base, "% ") {
+		return
+	}
+	old := p.Base
+	p.Base, p.AltBase = old[:k+1]+"sp%20"+old[k+1:], old[:k+1]+"sp "+old[k+1:]
+	n := 0
+	respell := func(t string) string {
+		if t != old && !strings.HasPrefix(t, old+"//") && !strings.HasPrefix(t, old+"?") {
+			return t
+		}
+		n++
+		if n%2 == 0 {
+			return p.AltBase + t[len(old):]
+		}
+		return p.Base + t[len(old):]
+	}
+	for i := range sc.Adds {
+		if sc.Adds[i].Kind == "remote" {
+			sc.Adds[i].Addr = respell(sc.Adds[i].Addr)
+		}
+	}
+	for i := range sc.Pkgs {
+		for j := range sc.Pkgs[i].Mods {
+			for d := range sc.Pkgs[i].Mods[j].Deps {
+				if sc.Pkgs[i].Mods[j].Deps[d].Kind == "remote" {
+					sc.Pkgs[i].Mods[j].Deps[d].Addr = respell(sc.Pkgs[i].Mods[j].Deps[d].Addr)
+				}
+			}
+		}
+	}
+	for i := range sc.Regs {
+		for j := range sc.Regs[i].Versions {
+			sc.Regs[i].Versions[j].Source = respell(sc.Regs[i].Versions[j].Source)
+		}
+	}
 }
